@@ -431,6 +431,49 @@ void h_refused_unknown(void)
 }
 
 /*
+ * C11: a refused vnacal_new_set_frequency_vector changes nothing.  A standard
+ * with a vector parameter defined over 1..2 GHz is in use; a new frequency
+ * vector of 3..5 GHz is not covered by it and must be refused (one usage
+ * report, EINVAL) with the calibration's frequencies exactly as they were.
+ */
+void h_refused_set_frequency(void)
+{
+    IN(double, mval);
+    double f_ok[2] = { 1.0e9, 2.0e9 }, f_bad[2] = { 3.0e9, 5.0e9 };
+    double pf[2] = { 1.0e9, 2.0e9 };
+    double complex pg[2] = { -1.0, -1.0 };
+    double complex v[2];
+    double complex *m1[1] = { v };
+    vnacal_t *vcp;
+    vnacal_new_t *vnp;
+    int p, rc;
+
+    v[0] = v[1] = mval;
+    ghost_err_reset();
+    vcp = vnacal_create(verif_error_fn, NULL);
+    ASSUME(vcp != NULL);
+    p = vnacal_make_vector_parameter(vcp, pf, 2, pg);
+    ASSUME(p == 3);
+    vnp = vnacal_new_alloc(vcp, CAL_TYPE, 1, 1, 2);
+    ASSUME(vnp != NULL);
+    ASSUME(vnacal_new_set_frequency_vector(vnp, f_ok) == 0);
+    ASSUME(vnacal_new_add_single_reflect_m(vnp, m1, 1, 1, p, 1) == 0);
+    CHECK(ghost_err_calls == 0, "set-up is silent");
+
+    rc = vnacal_new_set_frequency_vector(vnp, f_bad);
+    REACH("refused set_frequency_vector returned");
+    CHECK(rc == -1 && ghost_err_calls == 1 && ghost_err_category == VNAERR_USAGE && errno == EINVAL,
+	    "frequencies not covered by a standard in use are refused once with EINVAL");
+    CHECK(vnp->vn_frequencies_valid && vnp->vn_frequency_vector[0] == f_ok[0] &&
+	    vnp->vn_frequency_vector[1] == f_ok[1],
+	    "the refused call leaves the calibration's frequencies as they were");
+    CHECK(vnp->vn_measurement_count == 1 && wf_counts(vnp), "and the standards too");
+    vnacal_new_free(vnp);
+    (void)vnacal_delete_parameter(vcp, p);
+    vnacal_free(vcp);
+}
+
+/*
  * The TRL short-cut test (_vnacal_new_solve_is_trl / classify_standard) runs
  * at every solve of a 2x2 T8/U8/TE10/UE10 calibration with exactly three
  * standards and two unknown parameters - e.g. in the "solve after each
@@ -475,6 +518,10 @@ void h_is_trl(void)
     ASSUME(vnacal_new_add_single_reflect_m(vnp, m, 2, 2, r, 2) == 0);
 #elif TRL_VARIANT == 2		/* single reflect on port 1, 1x1 M: three cells unspecified */
     ASSUME(vnacal_new_add_single_reflect_m(vnp, m1, 1, 1, r, 1) == 0);
+#elif TRL_VARIANT == 3		/* double reflect with DIFFERENT reflections: unknown on port 1, known short on port 2 */
+    ASSUME(vnacal_new_add_double_reflect_m(vnp, m, 2, 2, r, VNACAL_SHORT, 1, 2) == 0);
+#elif TRL_VARIANT == 4		/* the same with the ports exchanged */
+    ASSUME(vnacal_new_add_double_reflect_m(vnp, m, 2, 2, VNACAL_SHORT, r, 1, 2) == 0);
 #endif
     ASSUME(vnacal_new_add_line_m(vnp, m, 2, 2, line, 1, 2) == 0);
     ASSUME(vnp->vn_measurement_count == 3 && vnp->vn_unknown_parameters == 2);
@@ -488,7 +535,7 @@ void h_is_trl(void)
     CHECK(vnti.vnti_r_unknown != vnti.vnti_l_unknown && vnti.vnti_r_unknown >= 0 && vnti.vnti_l_unknown >= 0 &&
 	    vnti.vnti_r_unknown < 2 && vnti.vnti_l_unknown < 2, "the two unknowns are told apart");
 #else
-    CHECK(!is, "a reflect given on one port only is not the TRL reflect: the general method is used");
+    CHECK(!is, "a reflect that is not the SAME unknown on both ports is not the TRL reflect: the general method is used");
 #endif
     CHECK(ghost_err_calls == 0, "classification is silent");
     vnacal_new_free(vnp);
